@@ -149,8 +149,11 @@ class _FilesystemDataSource(DataSource):
         if not os.path.exists(non_versioned_path):
             result = False
         else:
+            # The link must point at a version object. A link left empty or truncated
+            # by an interrupted write resolves to "." or to a directory: treat it as absent
+            # so the key is simply written again.
             path = self._read_non_versioned_link(key)
-            result = path.exists()
+            result = path.is_file()
         log.debug("Exists {}? {}".format(key, result))
         return result
 
